@@ -195,6 +195,9 @@ func viewsSuite() hlib.Suite {
 	}}
 }
 
+var optAlpha = []options.RunOptions{{}, {MaxFailuresRate: 50}, {IgnoreDropped: true}, {IgnoreDropped: true, MaxFailuresRate: 50}, {MaxFailures: 2},
+	{IgnoreDropped: true, MaxFailures: 2, Verbose: true, MaxIterations: 5, Concurrency: 3, MaxDuration: time.Minute}}
+
 // resultSuite: the data run.Result hands to the views equals its snapshot.
 func resultSuite() hlib.Suite {
 	return hlib.Suite{Name: "run.Result/summary+progress-data-equals-snapshot", Run: func(r *hlib.Rec) {
@@ -203,7 +206,8 @@ func resultSuite() hlib.Suite {
 			for _, f := range []uint64{0, 1, 3} {
 				for _, d := range []uint64{0, 1, 3} {
 					for _, withErr := range []bool{false, true} {
-						for _, mfr := range []int{0, 50} {
+						for oi, opts := range optAlpha {
+							mfr := opts.MaxFailuresRate
 							r.Eval()
 							stats := &progress.Stats{}
 							for i := uint64(0); i < s; i++ {
@@ -215,11 +219,11 @@ func resultSuite() hlib.Suite {
 							for i := uint64(0); i < d; i++ {
 								stats.Record(metrics.DroppedResult, 0)
 							}
-							res := run.NewResult(options.RunOptions{MaxFailuresRate: mfr}, v, stats)
+							res := run.NewResult(opts, v, stats)
 							if withErr {
 								res.AddError(errors.New("teardown failed"))
 							}
-							input := fmt.Sprintf("successful=%d failed=%d dropped=%d error=%v max-failures-rate=%d", s, f, d, withErr, mfr)
+							input := fmt.Sprintf("successful=%d failed=%d dropped=%d error=%v options#%d{ignore-dropped=%v max-failures=%d max-failures-rate=%d verbose=%v max-iterations=%d}", s, f, d, withErr, oi, opts.IgnoreDropped, opts.MaxFailures, mfr, opts.Verbose, opts.MaxIterations)
 							r.SampleCase(input)
 							res.SnapshotProgress(time.Second)
 							pd := res.Progress().VerifData()
@@ -234,13 +238,28 @@ func resultSuite() hlib.Suite {
 							if sd.Failed != res.Failed() || (sd.Error != nil) != withErr {
 								r.Fail("C19/result-summary-data", "verdict", fmt.Sprintf("Failed=%v Error=%v", sd.Failed, sd.Error), input)
 							}
+							// and rendered: the text states the result's own counts and each count's share of all iterations
+							var text string
+							if p, pv := hlib.Catch(func() { text = res.Summary().VerifRender(false) }); p {
+								r.Fail("C19/render-panics", "result-summary", fmt.Sprint(pv), input)
+								continue
+							}
+							if m := reStarted.FindStringSubmatch(text); m == nil || m[1] != strconv.FormatUint(s+f, 10) {
+								r.Fail("C19/summary-started", "count", fmt.Sprintf("started line %v, want %d", m, s+f), input)
+							}
+							checkLine(r, text, reSucc, "successful", s, s+f+d, input)
+							checkLine(r, text, reFail, "failed", f, s+f+d, input)
+							checkLine(r, text, reDrop, "dropped", d, s+f+d, input)
+							if hasFailed := strings.Contains(text, "Load Test Failed"); hasFailed != res.Failed() || strings.Contains(text, "Load Test Passed") == res.Failed() {
+								r.Fail("C19/banner", "result-summary", fmt.Sprintf("banner says failed=%v, Result.Failed()=%v", hasFailed, res.Failed()), input)
+							}
 							r.Distinct(input)
 						}
 					}
 				}
 			}
 		}
-		r.Sample("counts {0,1,3}^3 x error x rate through run.Result.Summary()/Progress()")
+		r.Sample("counts {0,1,3}^3 x error x six option sets through run.Result.Summary()/Progress()")
 	}}
 }
 
